@@ -30,7 +30,12 @@ Print Assumptions C06_reservation.
 
 (* the repaired defects D5/D6: a list TLF declaring 2^32-1 entries is an ordinary error *)
 Example C06_declared_length_max :
-  parse [0x76;0x07;0x00;0x0b;0x06;0xa5;0xd3;0xc5;0x62;0x00;0x62;0x00;0x72;0x63;0x07;0x01;0x77;0x01;0x01;0x01;0x01;0x71;
-         0xff;0x8f;0x8f;0x8f;0x8f;0x8f;0x8f;0x0f] = FileErr TlfMismatch /\
+  parse [0x76;0x07;0x00;0x0b;0x06;0xa5;0xd3;0xc5;0x62;0x00;0x62;0x00;0x72;0x63;0x07;0x01;0x77;0x01;0x01;0x01;0x01;
+         0xff;0x8f;0x8f;0x8f;0x8f;0x8f;0x8f;0x0f] = FileErr UnexpectedEOF /\
+  firstn 2 (sp_calls 3 (sp_new
+        [0x76;0x07;0x00;0x0b;0x06;0xa5;0xd3;0xc5;0x62;0x00;0x62;0x00;0x72;0x63;0x07;0x01;0x77;0x01;0x01;0x01;0x01;
+         0xff;0x8f;0x8f;0x8f;0x8f;0x8f;0x8f;0x0f])) =
+    [SEvent (EMessageStart (mkms [0x00;0x0b;0x06;0xa5;0xd3;0xc5] 0 0 (SGetList (mkgs None [] None None 4294967295))));
+     SErr UnexpectedEOF] /\
   list_reservation (mktlf TList 4294967295) [1;2;3] = 3.
-Proof. vm_compute. split; reflexivity. Qed.
+Proof. vm_compute. repeat split; reflexivity. Qed.
